@@ -119,6 +119,10 @@ class World(object):
                 for st in (rps.PMGR_LAUNCHING, rps.PMGR_ACTIVE, rps.DONE):
                     if st != self.pstate.get(pid):
                         ev.append(('pstate', pid, st))
+        if not self.added and self.scn.get('add_pairs'):
+            # one add_pilots command naming both pilots, either order
+            ev.append(('add2', 'p1', 'p2'))
+            ev.append(('add2', 'p2', 'p1'))
         for uid in sorted(self.pushed):
             if uid not in self.final:
                 ev.append(('tfinal', uid))
@@ -151,6 +155,18 @@ class World(object):
                 s._control_cb(rpc.CONTROL_PUBSUB, seams.wire(
                     {'cmd': 'add_pilots',
                      'arg': {'pilots': [doc], 'tmgr': 'tmgr.0000'}}))
+            elif kind == 'add2':
+                docs = list()
+                for pid in ev[1:]:
+                    self.added.add(pid); self.ever.add(pid)
+                    self.removed.discard(pid)
+                    self.pstate.setdefault(pid, rps.NEW)
+                    doc = make_pilot_doc(pid)
+                    doc['state'] = self.pstate[pid]
+                    docs.append(doc)
+                s._control_cb(rpc.CONTROL_PUBSUB, seams.wire(
+                    {'cmd': 'add_pilots',
+                     'arg': {'pilots': docs, 'tmgr': 'tmgr.0000'}}))
             elif kind == 'remove':
                 self.added.discard(ev[1]); self.removed.add(ev[1])
                 s._control_cb(rpc.CONTROL_PUBSUB, seams.wire(
@@ -184,6 +200,7 @@ class World(object):
 
     def site(self, kind):
         return {'submit': 'work', 'add': 'control_cb', 'remove': 'control_cb',
+                'add2': 'control_cb',
                 'pstate': '_base_state_cb', 'tfinal': 'update_tasks',
                 'tfinal2': 'update_tasks'}[kind]
 
@@ -391,6 +408,7 @@ def scenarios(quick):
         for name, tasks in TASKSETS.items():
             out.append({'name': '%s/%s' % (sched, name), 'sched': sched,
                         'tasks': tasks,
+                        'add_pairs': True,
                         'pairs_final': sched == 'bf' and name in
                                        ('u1u1u1', 'u4u4u4u1', 'n1u1n1')})
     return out
@@ -419,7 +437,7 @@ def run(ctx):
         ctx.merge(res)
     ctx.set(depth=_depth,
             rule='BFS over event histories (submit 1|2 tasks, add/remove '
-                 'p1|p2, pilot state LAUNCHING|ACTIVE|DONE, task final) to '
+                 'p1|p2, add both pilots in one command, pilot state LAUNCHING|ACTIVE|DONE, task final) to '
                  'depth %d for 7 task sets x {RoundRobin, Backfilling}; states '
                  'merged on scheduler state + ledger' % _depth,
             exhaustive=True)
